@@ -73,7 +73,7 @@ def d3_rewind_restores(ctx, rm: REModel):
                "" if ok else "a pause between `read` and `save` leaves the bundle's readings behind: the replayed read collides with them and the resume fails",
                nontrivial=True, where=where(cr, cr.node))
     snap = rm.b("reset_checkpoint_state")
-    ok = any(q.copies_all_items(st, "self._sequence_counters", "self._sequence_counters_copy") for st in A.walk_stmts(snap.node.body))
+    ok = any(q.copies_all_items(st, "self._sequence_counters", "self._sequence_counters_copy", snap.node) for st in A.walk_stmts(snap.node.body))
     ctx.ob("C03.D3-rewind-restores-counters", cname(snap, None, "checkpoint snapshots every stream's counter"), ok,
            "" if ok else "the checkpoint no longer snapshots the sequence counters", where=where(snap, snap.node))
     q.check_writers(ctx, "C03.D3-snapshot-writers", rm.repo, "_sequence_counters_copy",
